@@ -25,6 +25,7 @@ func init() {
 			ruleFailFastOnlyWhenClosed(r, "R8")
 			ruleC05R9(r)
 			ruleC05R10(r)
+			ruleAlwaysCancels(r, "R11")
 		},
 	})
 }
@@ -572,7 +573,7 @@ func ruleC05R9(r *Run) {
 // of the healthy new connection makes the run group fail, the new connection is closed and redialled, and the
 // application sees a second disconnected/reconnected pair for one outage.
 func ruleC05R10(r *Run) {
-	r.Begin("R10", "no reconnect on a stale error: in (*Conn).send the status call that can move a Connected connection to Reconnecting is conditional — evaluated from Connected it can also leave the status alone — and the condition is a ticket taken from the status holder before the request was issued (an argument whose defining call dominates the call of the request function)", 1)
+	r.Begin("R10", "no reconnect on a stale error: in (*Conn).send the status call that can move a Connected connection to Reconnecting is conditional — evaluated from Connected it can also leave the status alone — and the condition is a ticket taken from the status holder for this attempt (an argument whose defining call dominates the call of the request function, lies in the same retry loop and has no blocking wait on the holder between itself and the request)", 1)
 	p := r.P
 	fn := r.method("/iscp", "Conn", "send")
 	fld := r.field("/iscp", "connStatus", "current")
@@ -633,6 +634,21 @@ func ruleC05R10(r *Run) {
 			}
 			if tc, isCall := canonVal(a).(*ssa.Call); isCall && onHolder(tc) && dominatesInstr(tc, fcall) {
 				ticket = true
+				// the ticket belongs to this attempt: taken inside the retry loop the request sits in, and after the
+				// wait for Connected (a ticket from before a redial blames the new connection for nothing it did, or
+				// — taken once — stops matching after the first redial so that later failures never trigger one)
+				if inLoop(fcall) && !loopBlocks(fcall.Block())[tc.Block()] {
+					ticket = false
+				}
+				allInstrs(fn, func(w ssa.Instruction) {
+					wc, isC := w.(*ssa.Call)
+					if !isC || !onHolder(wc) || wc == tc || wc == c {
+						return
+					}
+					if dominatesInstr(tc, wc) && dominatesInstr(wc, fcall) && p.reachesCall(wc.Call.StaticCallee(), 3, "sync.Cond.Wait") {
+						ticket = false
+					}
+				})
 			}
 		}
 		r.Check(fmt.Sprintf("%s flip#%d to Reconnecting", name, k), canStay && ticket, posOf(p, c), name, fmt.Sprintf("%s can move a Connected connection to Reconnecting after a request failed; it can also leave it alone: %v; the decision uses a ticket read from the status before the request: %v. An unconditional flip lets the late error of an already replaced wire connection take the new one down", callName(c), canStay, ticket))
